@@ -39,6 +39,7 @@ class Func:
 class FrameChecker:
     def __init__(self, root="/repo/jinns", pkg="jinns"):
         self.funcs, self.by_name, self.bases, self.imports, self.classes = {}, {}, {}, {}, {}
+        self.module_state = {}
         for dp, _, files in os.walk(root):
             for f in files:
                 if not f.endswith(".py"):
@@ -52,7 +53,17 @@ class FrameChecker:
                 except SyntaxError:
                     continue
                 self.imports[rel] = {}
+                self.module_state.setdefault(rel, {})
                 for node in tree.body:
+                    # module-level mutable containers (a function writing to one makes later results depend on the call history)
+                    if isinstance(node, (ast.Assign, ast.AnnAssign)) and getattr(node, "value", None) is not None:
+                        v = node.value
+                        mutable = isinstance(v, (ast.Dict, ast.List, ast.Set, ast.DictComp, ast.ListComp, ast.SetComp)) or (
+                            isinstance(v, ast.Call) and isinstance(v.func, ast.Name) and v.func.id in ("dict", "list", "set", "defaultdict", "OrderedDict"))
+                        if mutable:
+                            for t in (node.targets if isinstance(node, ast.Assign) else [node.target]):
+                                if isinstance(t, ast.Name):
+                                    self.module_state[rel][t.id] = node.lineno
                     if isinstance(node, ast.ImportFrom) and node.module and node.module.startswith(pkg):
                         for a in node.names:
                             self.imports[rel][a.asname or a.name] = node.module
@@ -258,9 +269,18 @@ class FrameChecker:
                 break
 
         findings = []
+        local_names = set(env)
+        for s_ in ast.walk(node):
+            if isinstance(s_, ast.Global):
+                local_names -= set(s_.names)
+        gstate = self.module_state.get(f.mod, {})
 
         def flag(n, base, what):
             if ctor and isinstance(base, ast.Name) and base.id == "self" and what == "attribute store":
+                return
+            if isinstance(base, ast.Name) and base.id in gstate and base.id not in local_names:
+                findings.append((n.lineno, "write to module-level state `" + base.id + "` (" + what + ")",
+                                 ast.unparse(n).split("\n")[0][:120]))
                 return
             if prov(base)[0] == ARG:
                 findings.append((n.lineno, what, ast.unparse(n).split("\n")[0][:120]))
